@@ -30,7 +30,7 @@ CHECKS.update({
  "C03": dict(
   level="exploration",
   technique="bounded-exhaustive enumeration of documents x node-set expressions; order/duplicate oracle on the implementation's own result plus reference comparison",
-  text="All forests with <=3/4 nodes x 4 decorations: every 1-2 (thorough 1-3) step path over 13 axes x {node(),*}, attribute/namespace steps after reverse axes and 10 step forms x 7 predicates after multi-node context sets, from every context node; every ordered forest of 4-6 (thorough 7) elements x all one- and two-step paths from every context node; a 20-30 path universe with all pairwise unions, count() of unions and association shapes from the root. Each returned slice is checked for duplicates, foreign cursors, strict monotonicity, ascending order where required, and set equality with the reference (union = sorted set union).",
+  text="All forests with <=3/4 nodes x 4 decorations: every 1-2 (thorough 1-3) step path over 13 axes x {node(),*}, attribute/namespace steps after reverse axes and 10 step forms x 7 predicates after multi-node context sets, from every context node; every ordered forest of 4-6 (thorough 7) elements x all one- and two-step paths from every context node; documents whose namespace declarations are reported twice in a row (as the XML adaptor does); a 20-30 path universe with all pairwise unions, count() of unions and association shapes from the root. Each returned slice is checked for duplicates, foreign cursors, strict monotonicity, ascending order where required, and set equality with the reference (union = sorted set union).",
   note="Document order is read from the implementation's own list order (its agreement with Pos() is C10). Trusted: refxp.",
   ref="2 C03"),
  "C04": dict(
@@ -72,7 +72,7 @@ CHECKS.update({
  "C12": dict(
   level="exploration",
   technique="bounded-exhaustive enumeration of documents x context nodes of every kind x name/count/lang expressions against the reference",
-  text="All forests <=3/4 nodes x 6 decorations: 115 name()/local-name()/namespace-uri()/count() expressions (incl. unions of namespace and attribute nodes of one element) from every node of every kind; ~140 documents with xml:lang placements over 15 tag values (incl. every ordered arrangement of lang / p:lang / xml:lang on one element) x 50 lang() expressions from every node.",
+  text="All forests <=3/4 nodes x 6 decorations: 115 name()/local-name()/namespace-uri()/count() expressions (incl. unions of namespace and attribute nodes of one element) from every node of every kind; ~140 documents with xml:lang placements over 15 tag values (incl. every ordered arrangement of lang / p:lang / xml:lang on one element) x 50 lang() expressions from every node; every letter a-z in either case on either side.",
   note="Trusted: refxp.NodeNames/Lang.",
   ref="2 C12"),
  "C08": dict(
@@ -84,7 +84,7 @@ CHECKS.update({
  "C09": dict(
   level="fault_enumeration",
   technique="bounded-exhaustive enumeration of abstract documents x serialisations through the real reader, with every truncation point, unbalancing tag mutation and reader deviation (short read / I/O error at every byte offset) enumerated",
-  text="Every XML-serialisable forest with <=3/4 nodes x 6 namespace schemes x 192 serialisations (text as literal/char-refs/CDATA/split, empty-element tags, XML declaration and four charsets with harness-transcoded bytes, DOCTYPE, prolog/epilog content): the cursor tree is compared with the abstract document including one owned namespace node per in-scope binding; every proper prefix that cuts markup or the document element, every unbalancing tag deletion/swap a list of malformed inputs and references to 85 undeclared entity names (incl. the HTML ones) must error; every document length 1-400 items (and 1023-20000) compared node by node; one short read / one I/O error at every byte offset.",
+  text="Every XML-serialisable forest with <=3/4 nodes x 6 namespace schemes x 192 serialisations (text as literal/char-refs/CDATA/split, empty-element tags, XML declaration and four charsets with harness-transcoded bytes, DOCTYPE, prolog/epilog content): the cursor tree is compared with the abstract document including one owned namespace node per in-scope binding; every proper prefix that cuts markup or the document element, every unbalancing tag deletion/swap a list of malformed inputs and references to 85 undeclared entity names (incl. the HTML ones) must error; every document length 1-400 items (and 1023-20000) compared node by node; deep chains of default-namespace declaration / un-declaration / re-declaration; one short read / one I/O error at every byte offset.",
   note="Whitespace-only top-level text and truncation exactly between prolog items are not judged. Go's encoding/xml decides well-formedness details beyond tag balance.",
   ref="2 C09"),
  "C16": dict(
@@ -102,13 +102,13 @@ CHECKS.update({
  "C19": dict(
   level="exploration",
   technique="bounded-exhaustive enumeration of reflect-generated target types x tag expressions x nodes against values derived from separate Exec calls",
-  text="50 field/element types (all supported kinds, pointer chains, nestings, the unsupported kinds, and defined types of supported kinds - error or converted value, never a panic) x 40 tag expressions (incl. reverse-axis results into slice fields) (both tiers; incl. magnitudes around 2^31, 2^32, 2^63, 2^64 - exact limits of the 64-bit kinds) x every element of 3 documents as *T and **T; slice targets over node-sets of 0-3 nodes in both orders and with a repeated node (expectation computed before the call from a copy; the caller's node-set must come back as given); 36 ill-shaped targets and results; expected values from separate Exec calls plus the statement's conversion table; never a panic; untagged fields untouched.",
+  text="50 field/element types (all supported kinds, pointer chains, nestings, the unsupported kinds, and defined types of supported kinds - error or converted value, never a panic) x 40 tag expressions (incl. reverse-axis results into slice fields) (both tiers; incl. magnitudes around 2^31, 2^32, 2^63, 2^64 - exact limits of the 64-bit kinds) x every element of 3 documents as *T and **T; slice targets over node-sets of 0-3 nodes in both orders and with a repeated node (expectation computed before the call from a copy; the caller's node-set must come back as given); pointer fields of re-used targets must be freshly allocated (old pointee untouched, new pointer); 36 ill-shaped targets and results; expected values from separate Exec calls plus the statement's conversion table; never a panic; untagged fields untouched.",
   note="Exec is trusted here (verified by C01-C07). Unrepresentable float->int conversions only required not to panic.",
   ref="2 C19"),
  "C13": dict(
   level="model_checking",
   technique="explicit-state BFS over call histories (Exec/Unmarshal/BuildExpr on shared objects) with state de-duplication; every transition replayed on fresh real objects; deep reflective fingerprints as invariant",
-  text="States are the contents/length/capacity of two caller-held node-set slots on two documents; 150+ operations per state (44 menu expressions from 3 context nodes, results optionally kept - also re-sliced with spare capacity -, Unmarshal, BuildExpr); depth 2 (quick) / 3 (thorough). After every call: fingerprints (unexported fields, spare capacity, cyclic pointers) of the tree, both slots' full-capacity views, all compiled expressions and the caller's namespace, variable and function maps unchanged; the result equals the same call's result in every other history; reused compiled expression = freshly built one. Process histories: every ordered pair of 100 calls (32 near-duplicate expression texts; 8 texts x 3 context nodes x 2 documents; 10 texts about node values - string-values, node-set comparisons, sums - x 2 documents) in a FRESH process - the second call's outcome must equal its outcome in a process where nothing ran before. Parser order: every ambiguous alternative list of every built C08 query rotated.",
+  text="States are the contents/length/capacity of two caller-held node-set slots on two documents; 150+ operations per state (44 menu expressions from 3 context nodes, results optionally kept - also re-sliced with spare capacity -, Unmarshal, BuildExpr); depth 2 (quick) / 3 (thorough). After every call: fingerprints (unexported fields, spare capacity, cyclic pointers) of the tree, both slots' full-capacity views, all compiled expressions and the caller's namespace, variable and function maps unchanged; the result equals the same call's result in every other history; reused compiled expression = freshly built one. Process histories: every ordered pair of 108 calls (32 near-duplicate expression texts; 8 texts x 3 context nodes x 2 documents; 10 texts about node values - string-values, node-set comparisons, sums - x 2 documents; 8 failing calls); every call repeated 500 times before each of 4 probes in a FRESH process - the second call's outcome must equal its outcome in a process where nothing ran before. Parser order: every ambiguous alternative list of every built C08 query rotated.",
   note="BuildExpr repeatability over the parser's internal (map-iteration) ordering is enumerated at deviation bound 1: every ambiguous alternative list of every built C08 query is rotated so that each alternative comes first once (reflection on the parse forest, no hook); simultaneous deviations in two lists are not enumerated.",
   ref="2 C13"),
  "C14": dict(
